@@ -82,6 +82,7 @@ R["neuropixel.NP2Converter._split2shanks"] = [
 R["neuropixel.NP2Converter.compress_NP24"] = [
     ("for V__ in self.shank_info.keys(): pass", {"V__": "sh"}),
     ("V__ = self.shank_info[sh]['ap_file']", {"V__": "bin_file"}),
+    ("V__ = self.shank_info[sh]['lf_file']", {"V__": "bin_file"}),
     ("V__ = bin_file.with_suffix('.cbin')", {"V__": "cbin_file"}),
 ]
 R["neuropixel.NP2Converter.compress_NP21"] = [
